@@ -60,6 +60,9 @@ type mstate struct {
 	state     []string // state variables of the innermost loop
 	inSwitch  int
 	module    string
+	dropRes   []bool // result positions of object type that the translation omits
+	join      []string // non-nil: translating a branch of a joined `if`; falling off the end yields these
+	inJoin    bool
 }
 
 type calleeInfo struct {
@@ -513,6 +516,17 @@ func (fc *fnCtx) mexpr(ex ast.Expr) (string, bool, error) {
 			}
 			return fail("call of %s", id.Name)
 		}
+		if sel, ok := x.Fun.(*ast.SelectorExpr); ok && len(x.Args) == 0 {
+			if id, ok := sel.X.(*ast.Ident); ok {
+				if _, isStruct := fc.structs[id.Name]; isStruct {
+					if field, ok := trivialGetter(fc.p, sel); ok {
+						s, err := fc.expr(&ast.SelectorExpr{X: id, Sel: &ast.Ident{Name: field}})
+						return s, true, err
+					}
+					return fail("method call %s.%s is not a plain getter", id.Name, sel.Sel.Name)
+				}
+			}
+		}
 		if sel, ok := x.Fun.(*ast.SelectorExpr); ok {
 			if pk, ok := sel.X.(*ast.Ident); ok {
 				if pn, ok := fc.p.TypesInfo.Uses[pk].(*types.PkgName); ok && pn.Imported().Path() == "strings" && sel.Sel.Name == "Index" && len(x.Args) == 2 {
@@ -555,6 +569,42 @@ func (fc *fnCtx) mexpr(ex ast.Expr) (string, bool, error) {
 		return fail("call in expression")
 	}
 	return "", false, nil
+}
+
+// trivialGetter: the method selected by sel is `func (r *T) M() U { return r.f }` -> "f".
+func trivialGetter(p *packages.Package, sel *ast.SelectorExpr) (string, bool) {
+	fn, ok := p.TypesInfo.Uses[sel.Sel].(*types.Func)
+	if !ok || fn.Pkg() == nil {
+		return "", false
+	}
+	op := pkgs[fn.Pkg().Path()]
+	if op == nil {
+		return "", false
+	}
+	for _, f := range op.Syntax {
+		for _, d := range f.Decls {
+			fd, ok := d.(*ast.FuncDecl)
+			if !ok || fd.Recv == nil || fd.Body == nil || op.TypesInfo.Defs[fd.Name] != fn {
+				continue
+			}
+			if len(fd.Recv.List) != 1 || len(fd.Recv.List[0].Names) != 1 || len(fd.Body.List) != 1 {
+				return "", false
+			}
+			rs, ok := fd.Body.List[0].(*ast.ReturnStmt)
+			if !ok || len(rs.Results) != 1 {
+				return "", false
+			}
+			se, ok := rs.Results[0].(*ast.SelectorExpr)
+			if !ok {
+				return "", false
+			}
+			if id, ok := se.X.(*ast.Ident); !ok || id.Name != fd.Recv.List[0].Names[0].Name {
+				return "", false
+			}
+			return se.Sel.Name, true
+		}
+	}
+	return "", false
 }
 
 // ---------- statements ----------
@@ -604,6 +654,16 @@ func (fc *fnCtx) skippableType(t types.Type) bool {
 
 func (fc *fnCtx) mblock(stmts []ast.Stmt, lvl int) (string, error) {
 	if len(stmts) == 0 {
+		if fc.m.inJoin {
+			var ns []string
+			for _, v := range fc.m.join {
+				ns = append(ns, fc.name(v))
+			}
+			if len(ns) == 1 {
+				return ind(lvl) + ns[0], nil
+			}
+			return ind(lvl) + "(" + strings.Join(ns, ", ") + ")", nil
+		}
 		if fc.m.body {
 			return ind(lvl) + ".next " + fc.stateTuple(), nil
 		}
@@ -626,7 +686,23 @@ func (fc *fnCtx) mblock(stmts []ast.Stmt, lvl int) (string, error) {
 			// synthetic return of the region's outputs
 		}
 		var rs []string
-		for _, r := range x.Results {
+		for ri, r := range x.Results {
+			if ri < len(fc.m.dropRes) && fc.m.dropRes[ri] {
+				// object-valued result: not part of the translation; it must be an expression that cannot panic
+				switch y := r.(type) {
+				case *ast.Ident, *ast.SelectorExpr:
+				case *ast.IndexExpr:
+					if _, isMap := fc.p.TypesInfo.TypeOf(y.X).Underlying().(*types.Map); !isMap {
+						return "", fmt.Errorf("object-valued result is an index expression")
+					}
+					if _, err := fc.expr(y.Index); err != nil {
+						return "", err
+					}
+				default:
+					return "", fmt.Errorf("object-valued result %T", r)
+				}
+				continue
+			}
 			if t := fc.p.TypesInfo.TypeOf(r); t != nil && (t.String() == "error" || isErrorType(t)) {
 				if id, ok := r.(*ast.Ident); ok && id.Name == "nil" {
 					rs = append(rs, "false")
@@ -770,6 +846,53 @@ func (fc *fnCtx) mblock(stmts []ast.Stmt, lvl int) (string, error) {
 			return "", err
 		}
 		prefix += fc.flush(lvl)
+		if vars, ok := fc.joinable(x); ok {
+			// both branches only assign `vars`: one `let` of an if-expression instead of duplicating `rest`
+			saved := copyMap(fc.locals)
+			sj, si := fc.m.join, fc.m.inJoin
+			fc.m.join, fc.m.inJoin = vars, true
+			th, err := fc.mblock(x.Body.List, lvl+2)
+			if err != nil {
+				return "", err
+			}
+			fc.locals = copyMap(saved)
+			var els []ast.Stmt
+			switch el := x.Else.(type) {
+			case *ast.BlockStmt:
+				els = el.List
+			case *ast.IfStmt:
+				els = []ast.Stmt{el}
+			}
+			el, err := fc.mblock(els, lvl+2)
+			if err != nil {
+				return "", err
+			}
+			fc.locals = saved
+			fc.m.join, fc.m.inJoin = sj, si
+			var sb strings.Builder
+			sb.WriteString(prefix)
+			if len(vars) == 1 {
+				nn := fc.bump(vars[0])
+				fmt.Fprintf(&sb, "%slet %s :=\n%sif %s then\n%s\n%selse\n%s\n", ind(lvl), nn, ind(lvl+1), cond, th, ind(lvl+1), el)
+			} else {
+				fc.m.tmp++
+				jn := fmt.Sprintf("j%d", fc.m.tmp)
+				fmt.Fprintf(&sb, "%slet %s :=\n%sif %s then\n%s\n%selse\n%s\n", ind(lvl), jn, ind(lvl+1), cond, th, ind(lvl+1), el)
+				for k, v := range vars {
+					pr := jn + strings.Repeat(".2", k)
+					if k < len(vars)-1 {
+						pr += ".1"
+					}
+					nn := fc.bump(v)
+					fmt.Fprintf(&sb, "%slet %s := %s\n", ind(lvl), nn, pr)
+				}
+			}
+			r, err := fc.mblock(rest, lvl)
+			if err != nil {
+				return "", err
+			}
+			return sb.String() + r, nil
+		}
 		saved := copyMap(fc.locals)
 		fill := func(body []ast.Stmt) []ast.Stmt {
 			if endsControl(body) {
@@ -819,6 +942,72 @@ func (fc *fnCtx) mblock(stmts []ast.Stmt, lvl int) (string, error) {
 		return fc.mrange(x, rest, lvl)
 	}
 	return "", fmt.Errorf("unsupported statement %T at %s", s, fc.p.Fset.Position(s.Pos()))
+}
+
+// joinable: an `if` (without init) whose branches contain no control transfer, no loop, no checked
+// operation and no call, and only assign visible Int/Bool locals.  Returns those locals in
+// declaration order.
+func (fc *fnCtx) joinable(x *ast.IfStmt) ([]string, bool) {
+	ok := true
+	check := func(n ast.Node) bool {
+		switch y := n.(type) {
+		case *ast.ReturnStmt, *ast.BranchStmt, *ast.ForStmt, *ast.RangeStmt, *ast.SwitchStmt, *ast.IndexExpr,
+			*ast.SliceExpr, *ast.FuncLit, *ast.ExprStmt, *ast.DeclStmt:
+			ok = false
+		case *ast.CallExpr:
+			if tv, isT := fc.p.TypesInfo.Types[y.Fun]; !isT || !tv.IsType() {
+				ok = false
+			}
+		case *ast.BinaryExpr:
+			switch y.Op {
+			case token.QUO, token.REM, token.SHL, token.SHR:
+				if tv := fc.p.TypesInfo.Types[y.Y]; tv.Value == nil || constant.Sign(tv.Value) <= 0 {
+					ok = false
+				}
+			}
+		case *ast.AssignStmt:
+			switch y.Tok {
+			case token.QUO_ASSIGN, token.REM_ASSIGN, token.SHL_ASSIGN, token.SHR_ASSIGN, token.DEFINE:
+				ok = false
+			}
+		case *ast.IfStmt:
+			if y.Init != nil {
+				ok = false
+			}
+		}
+		return ok
+	}
+	var stmts []ast.Stmt
+	stmts = append(stmts, x.Body.List...)
+	ast.Inspect(x.Body, check)
+	switch el := x.Else.(type) {
+	case *ast.BlockStmt:
+		ast.Inspect(el, check)
+		stmts = append(stmts, el.List...)
+	case *ast.IfStmt:
+		ast.Inspect(el, check)
+		stmts = append(stmts, el)
+	}
+	if !ok {
+		return nil, false
+	}
+	assigned, declared := assignedIn(stmts)
+	if len(declared) > 0 || len(assigned) == 0 {
+		return nil, false
+	}
+	var vars []string
+	for _, n := range fc.m.declOrder {
+		if assigned[n] {
+			if _, vis := fc.locals[n]; !vis || (fc.m.ltype[n] != "Int" && fc.m.ltype[n] != "Bool") {
+				return nil, false
+			}
+			vars = append(vars, n)
+		}
+	}
+	if len(vars) != len(assigned) {
+		return nil, false
+	}
+	return vars, true
 }
 
 func (fc *fnCtx) lexprOrMake(ex ast.Expr) (string, error) {
@@ -1604,9 +1793,12 @@ func genFuncM(p *packages.Package, e entry) (string, error) {
 	for _, fl := range fd.Type.Results.List {
 		t := p.TypesInfo.TypeOf(fl.Type)
 		lt, err := leanTypeM(t)
+		drop := false
 		if err != nil {
 			if t.String() == "error" || isErrorType(t) {
 				lt = "Bool"
+			} else if _, isPtr := t.Underlying().(*types.Pointer); isPtr {
+				drop = true
 			} else {
 				return "", err
 			}
@@ -1617,11 +1809,17 @@ func genFuncM(p *packages.Package, e entry) (string, error) {
 		}
 		named = append(named, fl.Names...)
 		for i := 0; i < n; i++ {
-			rts = append(rts, lt)
+			fc.m.dropRes = append(fc.m.dropRes, drop)
+			if !drop {
+				rts = append(rts, lt)
+			}
 		}
 	}
 	if len(named) > 0 {
 		return "", fmt.Errorf("named results")
+	}
+	if len(rts) == 0 {
+		return "", fmt.Errorf("no translatable result")
 	}
 	fc.m.retType = strings.Join(rts, " × ")
 	body, err := fc.mblock(fd.Body.List, 1)
@@ -1696,6 +1894,22 @@ func genRegion(p *packages.Package, e entry) (string, error) {
 			last = i
 		}
 	}
+	if fl[0] == "^" {
+		first = 0
+		for i, st := range stmts {
+			a, d := assignedIn([]ast.Stmt{st})
+			if a[fl[1]] || d[fl[1]] {
+				last = i
+			}
+		}
+	}
+	toReturn := fl[1] == "return"
+	if toReturn {
+		last = len(stmts) - 1
+		if _, ok := stmts[last].(*ast.ReturnStmt); !ok {
+			return "", fmt.Errorf("function does not end in a return")
+		}
+	}
 	if first < 0 || last < first {
 		return "", fmt.Errorf("region %s not found", rng)
 	}
@@ -1724,10 +1938,20 @@ func genRegion(p *packages.Package, e entry) (string, error) {
 	}
 	sort.Slice(fvs, func(i, j int) bool { return fvs[i].Pos() < fvs[j].Pos() })
 	var params []string
+	type sparam struct {
+		name string
+		st   *types.Struct
+		at   int
+	}
+	var sparams []sparam
 	for _, obj := range fvs {
 		lt, err := leanTypeM(obj.Type())
 		if err != nil {
-			continue // objects: only allowed in skipped statements; a real use fails as a free identifier
+			if st := structOf(obj.Type()); st != nil {
+				fc.structs[obj.Name()] = st
+				sparams = append(sparams, sparam{obj.Name(), st, len(params)})
+			}
+			continue // other objects: only allowed in skipped statements; a real use fails as a free identifier
 		}
 		params = append(params, fmt.Sprintf("(%s : %s)", obj.Name(), lt))
 		fc.declare(obj.Name(), lt)
@@ -1740,6 +1964,9 @@ func genRegion(p *packages.Package, e entry) (string, error) {
 	}
 	// result type: look the outs up among the region's declared / free variables
 	var rts []string
+	if toReturn {
+		outs = nil
+	}
 	for _, o := range outs {
 		lt := ""
 		for _, st := range region {
@@ -1760,9 +1987,39 @@ func genRegion(p *packages.Package, e entry) (string, error) {
 		rts = append(rts, lt)
 	}
 	fc.m.retType = strings.Join(rts, " × ")
-	body, err := fc.mblock(append(append([]ast.Stmt{}, region...), ret), 1)
+	var body string
+	var err error
+	if toReturn {
+		rts = nil
+		for _, fl := range fd.Type.Results.List {
+			lt, err := leanTypeM(p.TypesInfo.TypeOf(fl.Type))
+			if err != nil {
+				if isErrorType(p.TypesInfo.TypeOf(fl.Type)) {
+					lt = "Bool"
+				} else {
+					return "", err
+				}
+			}
+			rts = append(rts, lt)
+		}
+		fc.m.retType = strings.Join(rts, " × ")
+		body, err = fc.mblock(region, 1)
+	} else {
+		body, err = fc.mblock(append(append([]ast.Stmt{}, region...), ret), 1)
+	}
 	if err != nil {
 		return "", err
+	}
+	for i := len(sparams) - 1; i >= 0; i-- {
+		sp := sparams[i]
+		var fps []string
+		for j := 0; j < sp.st.NumFields(); j++ {
+			key := sp.name + "_" + sp.st.Field(j).Name()
+			if lt, ok := fc.fieldsUsed[key]; ok {
+				fps = append(fps, fmt.Sprintf("(%s : %s)", key, lt))
+			}
+		}
+		params = append(params[:sp.at], append(fps, params[sp.at:]...)...)
 	}
 	return fc.emit(e.pkg+"."+fname+" (statements "+rng+")", params, body), nil
 }
